@@ -101,6 +101,45 @@ def gen_case(rng):
     return lines, bytes(code).hex(), defs, used
 
 
+def set_copies(rng, n):
+    """an assignment takes the VALUE its right-hand side has at that moment - a literal, another variable's name on its own,
+    pc, or a computed expression alike: variables copied from each other and re-assigned afterwards (save / restore, snapshots
+    of a counter), read by data words; an assignment that names nothing defined fails the build whether the variable is used or not"""
+    out = [(".set a = 1\n.set b = a\n.set a = 2\n ldi r16, b\n .dw a, b\n", ("OK", "01e002000100"), "set-copy"),
+           (".set v = 1\n.set saved = v\n.set v = 9\n .dw v\n.set v = saved\n .dw v\n", ("OK", "09000100"), "set-copy"),
+           (" nop\n.set here = pc\n nop\n nop\n .dw here\n", ("OK", "0000000000000100"), "set-copy"),
+           (" nop\n.set here = PC\n.set there = here\n.set here = 7\n nop\n .dw there, here\n", ("OK", "0000000001000700"), "set-copy"),
+           (".set i = 0\n.set j = i\n.set i = i + 1\n .dw i, j\n.set j = I\n.set i = i + 1\n .dw i, j\n", ("OK", "0100000002000100"), "set-copy"),
+           (".set v = nosuch\n nop\n", ("ERR",), "set-undefined-unused"),
+           (".set v = 1\n.set v = nosuch\n .dw 2\n", ("ERR",), "set-undefined-unused"),
+           (".set v = (nosuch)\n nop\n", ("ERR",), "set-undefined-unused")]
+    names = ["x", "y", "z"]
+    for _ in range(n):
+        val, lines, code = {}, [], ""
+        for _ in range(rng.randrange(3, 12)):
+            k = rng.random()
+            t = rng.choice(names)
+            if k < 0.3 or not val:
+                v = rng.randrange(0, 1000)
+                lines.append(".set %s = %d" % (vary(rng, t), v))
+                val[t] = v
+            elif k < 0.6:
+                f = rng.choice(list(val))
+                lines.append(".set %s = %s" % (vary(rng, t), rng.choice([vary(rng, f), "(%s)" % f, " " + f + " ", f + " ; copy"])))
+                val[t] = val[f]
+            elif k < 0.7:
+                f = rng.choice(list(val))
+                d = rng.randrange(1, 9)
+                lines.append(".set %s = %s + %d" % (t, vary(rng, f), d))
+                val[t] = val[f] + d
+            else:
+                f = rng.choice(list(val))
+                lines.append(" .dw " + vary(rng, f))
+                code += "%02x%02x" % (val[f] % 256, val[f] // 256 % 256)
+        out.append(("\n".join(lines) + "\n", ("OK", code), "set-copy-random"))
+    return out
+
+
 def run(res):
     vh, exe = P.base(res, PROP)
     rng = random.Random(res.seed)
@@ -195,6 +234,7 @@ def run(res):
         (".eseg\n.def cnt = r20\n.cseg\n mov cnt, r1\n", ("OK", "412d"), "def-in-eseg"),
     ]
     cases += fixed
+    cases += set_copies(rng, 80 if res.tier == "quick" else 20000)
     texts = [c[0] for c in cases]
     obs = P.correspond(res, vh, exe, texts, "symbol programs and their deletion/duplication mutants")
     dist = {}
